@@ -30,6 +30,7 @@ structure Sub where
   cancelAt : Option (Nat × Nat) := none  -- (emissions, frames dispatched) when cancel was requested
   leftAt : Option Nat := none         -- frames dispatched when the handler was removed and the channel closed
   counted : Bool := false             -- it has passed the subscription lock and is in the count
+  failed : Bool := false              -- its remote registration failed: `SubscribeID` returned the error
   got : List (Nat × Nat) := []        -- (emission index, payload) received, in order
   deriving Repr
 
@@ -57,7 +58,7 @@ def enter (c : C) (i : Nat) : C :=
   if c.op.isSome && !c.unserialized then c else
   match c.subs[i]? with
   | some s =>
-    if s.counted then c else
+    if s.counted || s.failed then c else
     if c.refs == 0 then
       { c with subs := c.subs.set i { s with counted := true }, refs := 1, op := some (.regPending i) }
     else
@@ -71,6 +72,18 @@ def subscribe (c : C) : C := enter (attach c) c.subs.length
 def srvRegister (c : C) : C :=
   match c.op with
   | some (.regPending i) => { c with registered := true, log := c.log ++ [.regAck], op := some (.regSent i) }
+  | _ => c
+
+/-- `RegisterEvent` returns an error (the connection, the server's answer, a deadline): the count and the
+    handler id are given back under the lock, the lock is released, `cancel()` is called and the error is
+    what `SubscribeID` returns.  The server's table is as it was (the request was not handled: an answer
+    that was an error, or no answer) -/
+def regFail (c : C) : C :=
+  match c.op with
+  | some (.regPending i) =>
+    match c.subs[i]? with
+    | some s => { c with refs := 0, op := none, subs := c.subs.set i { s with counted := false, failed := true } }
+    | none => c
   | _ => c
 
 def setSub (subs : List Sub) (i : Nat) (g : Sub → Sub) : List Sub :=
@@ -118,7 +131,7 @@ def srvUnregister (c : C) : C :=
 def leave (c : C) (i : Nat) : C :=
   match c.subs[i]? with
   | some s =>
-    if s.cancelAt.isNone || s.leftAt.isSome then c else
+    if (s.cancelAt.isNone && !s.failed) || s.leftAt.isSome then c else
     if c.op == some (.unregPending i) || c.op == some (.unregSent i) then c else
     { c with subs := c.subs.set i { s with leftAt := some c.delivered } }
   | none => c
@@ -133,7 +146,7 @@ def emit (c : C) (p : Nat) : C :=
 def noise (c : C) : C := { c with log := c.log ++ [.other] }
 
 inductive Action where
-  | attach | enter (i : Nat) | subscribe | srvRegister | deliver | cancel (i : Nat) | srvUnregister | leave (i : Nat) | emit (p : Nat) | noise
+  | attach | enter (i : Nat) | subscribe | srvRegister | deliver | cancel (i : Nat) | srvUnregister | leave (i : Nat) | emit (p : Nat) | noise | regFail
   deriving Repr
 
 def step (c : C) : Action → C
@@ -147,6 +160,7 @@ def step (c : C) : Action → C
   | .leave i => leave c i
   | .emit p => emit c p
   | .noise => noise c
+  | .regFail => regFail c
 
 def run (c : C) : List Action → C
   | [] => c
